@@ -15,9 +15,12 @@
                           the value of an object assignment is an object fluent of the same type applied to
                           fluent-free arguments or an expression without object fluents), no action is left out, an
                           object fluent is not also declared with another type (unique fluent names)
-     tr_ok tr P           the walker is exact on the conditions of P under the encoding invariant [urel_interp]
-     effects_defined P G  in the states of G target arguments, condition and value of every effect are defined and
-                          well typed (the compiled conditions are strict conjunctions `cond and test`)
+     tr_ok tr P           the walker is exact on the conditions of P under the encoding invariant [urel_interp] (for
+                          interpretations over the problem's objects); PROVED for the reference walker [utr] on the flat
+                          fragment: C06_LA_utfr_reference_walker_ok, and the *_reference theorems below need no [tr_ok]
+     effects_defined P G  in the states of G, for action instances whose preconditions hold, target arguments,
+                          condition and value of every effect are defined and well typed (the compiled conditions are
+                          strict conjunctions `cond and test`)
      one_value P G        THE hypothesis excluding the recorded unsound shape C06-utfr-masked-object-conflict: the
                           assignments that fire on one ground object fluent in one step carry one value
      closed P G           G is closed under the steps of P;   unique_ids P   action names are unique
@@ -82,13 +85,56 @@ Theorem C06_LA_utfr_init_related :
 Proof. exact enc_rel. Qed.
 Print Assumptions C06_LA_utfr_init_related.
 
-(* NOT PROVED (kept as a goal): the reference translation [utr] of the flat fragment (an object fluent read only as a
-   side of an equality, with objects / parameters / variables as arguments) satisfies [tr_ok]; [fv] gives the fresh
-   variable of a read, every object fluent's type has an object *)
-Definition C06_LA_utfr_walker_flat_goal : Prop :=
+(* the expression level, reference walker: [utr] (walk_fluent_exp + walk_equals on the flat fragment: an object fluent
+   read only as a side of an equality, with objects / parameters / variables as arguments; Boolean structure and
+   quantifiers rebuilt; everything without object fluents unchanged) has the value AND the definedness of the original
+   under the encoding invariant, provided the type of every object fluent has an object ([fv] = the fresh variable of a
+   read) *)
+Theorem C06_LA_utfr_walker_flat :
   forall (ot : N -> option N) (fv : N -> N) (e : expr) (I I' : interp),
     urel_interp ot I I' -> (forall f t, ot f = Some t -> objs I t <> []) -> flat ot fv e = true ->
     eval false (utr ot fv e) I' = eval false e I.
+Proof. exact utr_exact_interp. Qed.
+Print Assumptions C06_LA_utfr_walker_flat.
+
+(* ... hence the hypothesis [tr_ok] of the plan-level theorems holds for the reference walker followed by simplify() *)
+Theorem C06_LA_utfr_reference_walker_ok :
+  forall (smp : expr -> expr) (P : problem) (fv : N -> N),
+    smp_exact smp -> conds_flat P fv = true -> types_inhabited P = true ->
+    tr_ok (fun e => smp (utr (otype P) fv e)) P.
+Proof. exact utr_tr_ok. Qed.
+Print Assumptions C06_LA_utfr_reference_walker_ok.
+
+(* soundness with the walker MODEL in place of the abstract walker: [tr_ok] is replaced by the decidable conditions
+   [conds_flat] (every condition of P in the flat fragment) and [types_inhabited] *)
+Theorem C06_LA_utfr_sound_reference :
+  forall (smp : expr -> expr) (fv : N -> N) (P : problem) (G : state -> Prop),
+    smp_exact smp -> conds_flat P fv = true -> types_inhabited P = true ->
+    utfr_wf (fun e => smp (utr (otype P) fv e)) smp P = true ->
+    effects_defined P G -> one_value P G -> closed P G -> unique_ids P ->
+  forall (s s' : state) (pi : list (N * list value)), G s -> utfr_rel P s s' ->
+    valid_plan false (utfr_compile (fun e => smp (utr (otype P) fv e)) smp P) s' pi = true ->
+    valid_plan false P s pi = true.
+Proof. exact u_sound_reference. Qed.
+Print Assumptions C06_LA_utfr_sound_reference.
+
+(* non-vacuity with an object READ: o(x : T) : T, action(x): pre o(x) == 1, eff o(x) := 2, g := true; goals g, o(1) == 2.
+   The compiled precondition is the walker's Exists; the plans [a(1)] and [a(2); a(1)] are valid on the compiled
+   problem, [a(1); a(1)] is not *)
+Example C06_LA_utfr_sound_reference_nonvacuous :
+  smp_exact UtfrWitness.idf /\ conds_flat UtfrRef.Pr UtfrRef.fvr = true /\ types_inhabited UtfrRef.Pr = true /\
+  utfr_wf UtfrRef.trr UtfrWitness.idf UtfrRef.Pr = true /\
+  effects_defined UtfrRef.Pr UtfrRef.Gr /\ one_value UtfrRef.Pr UtfrRef.Gr /\ closed UtfrRef.Pr UtfrRef.Gr /\
+  unique_ids UtfrRef.Pr /\ UtfrRef.Gr UtfrRef.sr /\
+  utfr_rel UtfrRef.Pr UtfrRef.sr (enc_state UtfrRef.Pr UtfrRef.sr) /\
+  valid_plan false UtfrRef.Pr UtfrRef.sr UtfrRef.planr = true /\
+  valid_plan false UtfrRef.Pr' (enc_state UtfrRef.Pr UtfrRef.sr) UtfrRef.planr = true /\
+  valid_plan false UtfrRef.Pr' (enc_state UtfrRef.Pr UtfrRef.sr) [(0%N, [VObj 2%N]); (0%N, [VObj 1%N])] = true /\
+  valid_plan false UtfrRef.Pr' (enc_state UtfrRef.Pr UtfrRef.sr) [(0%N, [VObj 1%N]); (0%N, [VObj 1%N])] = false /\
+  map (fun ia => a_pre (snd ia)) (p_actions UtfrRef.Pr') =
+    [[EExists [(100%N, 0%N)]
+        (EAnd [EEquals (EVar 100%N 0%N) (EObj 1%N); EFluent 0%N [EParam 7%N; EVar 100%N 0%N]])]].
+Proof. exact utfr_reference_nonvacuous. Qed.
 
 (* without [one_value] soundness fails inside the model:  o := a; if b then o := c  makes the original step fail
    (two different values), while the encodings o(a) := true, o(c) := false, if b then o(a) := false, if b then
